@@ -453,8 +453,9 @@ pub enum Val {
     Pair(u32, u32),
     Bytes(Bytes),
     Entry(EntryView),
-    /// entry after follow(true), after a second follow(true)
-    EntryF(EntryView, EntryView, EntryView),
+    /// the entry, then after follow(true), after a following follow(false) (a no-op), and after
+    /// another follow(true) (also a no-op: path and alt swap exactly once)
+    EntryF(EntryView, EntryView, EntryView, EntryView),
     /// items yielded by a traversal; the bool says whether the iterator ended by itself
     Entries(Vec<Result<EntryView, String>>, bool),
 }
